@@ -90,6 +90,8 @@ ARGS = [
     "(current-input-port)", "(current-output-port)", "(eof-object)", "(if #f #f)", "CUR-OTHER", "(string-cursor-start S5)", "(string-cursor-end SU)", "(interaction-environment)",
     "(list 1 2.5 \"s\" #\\c)", "(vector 'a (vector 'b))", "(make-vector 10 0)", "(make-bytevector 10 7)", "(string->symbol \"\")",
 ]
+NUMERIC_PROCS = set(PROCS[:PROCS.index("not")])
+NUM_ARGS = ARGS[:ARGS.index("#t")]
 CYCLIC_ARGS = {"CYC"}
 SIZE_PROCS = {"make-vector", "make-string", "make-bytevector", "make-list", "read-string", "read-bytevector", "vector-fill!", "string-fill!", "list-tail", "list-ref",
               "make-rec-a", "string-copy", "vector-copy", "bytevector-copy", "*", "number->string", "square", "exact", "string->number", "exp", "gcd", "lcm"}
@@ -139,6 +141,14 @@ def gen_form(rng, light=False):
         proc = rng.choice(PROCS)
         nargs = rng.weighted([(0, 1), (1, 5), (2, 6), (3, 4), (4, 1)])
         args = [rng.choice(ARGS) for _ in range(nargs)]
+        if proc in NUMERIC_PROCS and rng.chance(1, 2):
+            # numeric procedures: every combination of number kinds (fixnum limits, bignums, ratios, signed zeros, infinities, NaN, complex)
+            args = [rng.choice(NUM_ARGS) for _ in range(nargs)]
+        if proc == "dynamic-wind" and len(args) >= 3:
+            # an after thunk that raises or escapes is re-run by every further escape through the same extent (the wind list is only
+            # updated after the thunks have run): leaving an after thunk by a continuation is unspecified in R7RS, so the program may
+            # loop by its own fault; before and body stay hostile
+            args[2] = rng.choice(["f0", "fr", "PARAM", "(lambda () 1)"])
         if proc in SIZE_PROCS:
             # a size that cannot be allocated is heap exhaustion, which the property excludes (and non-finite sizes loop allocating)
             args = ["65536" if a in HUGE_ARGS else a for a in args]
@@ -245,14 +255,18 @@ def plan_of(case):
             # run-time errors are caught INSIDE the evaluated form (handler and escape live in the same VM activation as the
             # error); the outer handler only sees errors that eval returns without a nested activation being abandoned
             # (syntax errors). The "xeval" sub-family keeps the handler outside eval, i.e. the escape crosses eval's C frame.
-            wrap = "x" if case.get("xeval") else "(list 'call/cc (list 'lambda '(k2) (list 'with-exception-handler '(lambda (e) (k2 'in-eval-error)) (list 'lambda '() x))))"
+            # K (a continuation captured by the prelude's top level, long finished) is rebound per form to an escape out of that form:
+            # re-entering a finished top-level evaluation from inside a session (or from another green thread) leaves the session's
+            # handlers by design and says nothing about memory safety or containment
+            wrap = ("(list 'call/cc (list 'lambda '(K) x))" if case.get("xeval")
+                    else "(list 'call/cc (list 'lambda '(k2) (list 'let '((K k2)) (list 'with-exception-handler '(lambda (e) (k2 'in-eval-error)) (list 'lambda '() x)))))")
             loader = ("(let ((p (open-sim-input \"src\")) (env (interaction-environment))) (let loop ((n 0) (errs 0)) "
                       "(let ((x (call/cc (lambda (k) (with-exception-handler (lambda (e) (k (list 'read-error-marker))) (lambda () (read p))))))) "
                       "(cond ((eof-object? x) (list 'forms n 'errors errs)) ((equal? x '(read-error-marker)) (list 'forms n 'errors errs 'read-error)) "
                       "(else (let ((ok (call/cc (lambda (k) (with-exception-handler (lambda (e) (k #f)) (lambda () (not (eq? 'in-eval-error (eval %s env))))))))) (loop (+ n 1) (if ok errs (+ errs 1)))))))))" % wrap)
             steps.append({"op": "eval", "src": loader})
         else:
-            body = " ".join("(call/cc (lambda (k) (with-exception-handler (lambda (e) (k 'err)) (lambda () %s))))" % f["src"] for f in forms)
+            body = " ".join("(call/cc (lambda (k) (let ((K k)) (with-exception-handler (lambda (e) (k 'err)) (lambda () %s)))))" % f["src"] for f in forms)
             steps.append({"op": "eval", "src": "(thread-join! (thread-start! (make-thread (lambda () %s 'session-done))))" % body})
         steps.append({"op": "eval", "src": PROBE})
     steps.append({"op": "eval", "src": PROBE})
